@@ -7,7 +7,7 @@ process forked from a pristine zygote (eko imported, failpoints installed, nothi
 and leaves <workdir>/result.json (or <workdir>/driver.err).
 
 spec = {
-  "workload": "solve" | "user" | "edit",
+  "workload": "solve" | "user" | "edit" | "copy",
   "workdir":  scratch directory owned by this job (TMPDIR is redirected into it),
   "seed_archive": path of an existing complete archive (edit workload only),
   "order": [1, 0],
@@ -320,7 +320,18 @@ def wl_edit(path, order):
         user_point("before-exit")
 
 
-WORKLOADS = dict(solve=wl_solve, user=wl_user, edit=wl_edit)
+def wl_copy(path, order):
+    """Deep copy of an open (read-only) EKO to a new archive path."""
+    from eko.io.struct import EKO
+
+    src = pathlib.Path(path).parent.parent / "seed-copy.tar"
+    with EKO.read(src) as eko:
+        user_point("opened")
+        eko.deepcopy(pathlib.Path(path))
+        user_point("copied")
+
+
+WORKLOADS = dict(solve=wl_solve, user=wl_user, edit=wl_edit, copy=wl_copy)
 
 
 # ---------------------------------------------------------------------- state
@@ -395,6 +406,8 @@ def run_one(spec):
     fp.names = {str(tmp): "<TMPDIR>", str(out): "<OUT>"}
     if spec["workload"] == "edit":
         shutil.copyfile(spec["seed_archive"], target)
+    if spec["workload"] == "copy":
+        shutil.copyfile(spec["seed_archive"], work / "seed-copy.tar")
     fn = WORKLOADS[spec["workload"]]
     order = spec.get("order", [1, 0])
     result = dict(spec=spec, srcroot=fp.srcroot, phases=[])
